@@ -53,7 +53,13 @@ def do_call(I, kind, named_s, call, log, ns, nc, probes=False, other=None):
     elif name == "iterate":
         log.append(("iterate", I.truth(I.call_fn("engineexport_iterate", []))))
     elif name == "iterate_n":
-        log.append(("iterate_n", I.truth(I.call_fn("engineexport_iterate_n", [int(arg)]))))
+        if arg == "sym":
+            # the number of iterations is a solver variable in [0, 2]: the loop forks on it (0 = "no iteration at all")
+            n_it = I.fresh("n_iterations", "int")
+            I.assume(z3.And(n_it >= 0, n_it <= 2))
+            log.append(("iterate_n", I.truth(I.call_fn("engineexport_iterate_n", [n_it]))))
+        else:
+            log.append(("iterate_n", I.truth(I.call_fn("engineexport_iterate_n", [int(arg)]))))
     elif name == "run":
         log.append(("run", I.truth(I.call_fn("engineexport_run", [int(arg)]))))
     elif name == "fetch2":
